@@ -248,9 +248,9 @@ GROUPS["btor2_token_t0"] = dict(dict(_MODEL, **_SPEC_INJECT), **{
     "package": "flussab-btor2",
     "prefix": "token::verif_token::",
     "overlay": [("flussab-btor2/src/token.rs", "token", "harness/btor2/token_t0.rs")],
-    "params": {"quick": {"N": 12}, "thorough": {"N": 14}},
+    "params": {"quick": {"N": 8}, "thorough": {"N": 10}},
     "flags": ["-Z", "stubbing"],
-    "flags_tier": {"quick": ["--default-unwind", "14"], "thorough": ["--default-unwind", "16"]},
+    "flags_tier": {"quick": ["--default-unwind", "10"], "thorough": ["--default-unwind", "12"]},
     "timeout": {"quick": 1200, "thorough": 5400},
     "harnesses": [
         ("single_byte_tokens", {"props": ["C09", "C08", "C05"], "cost": 1, "what": "btor2 newline / space / comment_start"}),
@@ -262,11 +262,63 @@ GROUPS["btor2_token_t0"] = dict(dict(_MODEL, **_SPEC_INJECT), **{
         ("symbol_name_token", {"props": ["C09", "C05"], "cost": 3, "what": "symbol_name"}),
         ("lowercase_u64_fast_eq_cold", {"props": ["C01", "C09", "C05"], "cost": 6, "what": "BTOR2 keyword scanner: SWAR fast path == cold path == reference, for every buffered amount"}),
         ("lowercase_raw_load_in_bounds", {"props": ["C14"], "cost": 2, "what": "8-byte load of the keyword scanner stays inside the buffered data"}),
-        ("lowercase_run_schedule_independent", {"props": ["C01", "C09", "C05"], "cost": 6, "what": "ascii_lowercase: exactly the run of lowercase letters for every buffered amount and schedule"}),
-        ("keyword_tokens_consume_run_or_nothing", {"props": ["C05", "C06"], "cost": 9, "tiers": T, "what": "node_token / sort_token consume the keyword or nothing"}),
         ("required_constants", {"props": ["C06", "C08", "C05"], "cost": 4, "what": "binary / decimal / hex constants"}),
         ("unexpected_total", {"props": ["C05", "C08", "C04"], "cost": 3, "what": "unexpected()"}),
         ("reach_btor2_token", {"kind": "reach", "cost": 5, "what": "vacuity twin"}),
+    ],
+})
+
+GROUPS["btor2_token_wide"] = dict(GROUPS["btor2_token_t0"], **{
+    "name": "btor2_token_wide",
+    "params": {"quick": {"N": 12}, "thorough": {"N": 14}},
+    "flags_tier": {"quick": ["--default-unwind", "14"], "thorough": ["--default-unwind", "16"]},
+    "harnesses": [
+        ("lowercase_run_schedule_independent", {"props": ["C01", "C09", "C05"], "cost": 6, "what": "ascii_lowercase: exactly the run of lowercase letters for every buffered amount and schedule"}),
+        ("keyword_tokens_consume_run_or_nothing", {"props": ["C05", "C06"], "cost": 9, "tiers": T, "what": "node_token / sort_token consume the keyword or nothing"}),
+    ],
+})
+
+def _stub_injects(file, specs, modpath="verif_stub"):
+    out = []
+    for name, args, generics, stubname in specs:
+        rx = r"pub fn %s(<[^>]*>)?\([^)]*\)[^{]*\{\n" % name
+        call = "%s::%s%s(%s)" % (modpath, stubname or name, generics, args)
+        out.append((file, rx, "    #[cfg(kani)]\n    if %s::on() {\n        return %s;\n    }\n" % (modpath, call)))
+    return out
+
+_CNF_TOKEN_SPECS = [
+    ("skip_whitespace", "input", "", None), ("comment", "input", "", None), ("newline", "input", "", None),
+    ("word", "input, fixed", "", None), ("fixed", "input, fixed", "", None),
+    ("interactive_strict_comment", "input", "", None), ("interactive_skip_line", "input", "", None),
+    ("eof", "input", "", None), ("interactive_end_of_line", "input", "", None),
+    ("non_terminating_linebreaks", "input", "", None),
+    ("var_count", "input", "::<L>", None), ("uint_count", "input, what", "::<T>", None),
+    ("clause_group", "input, limit, hard_limit", "", None),
+    ("clause_lits", "input, lits, limit, hard_limit", "::<L>", None),
+    ("int", "input", "::<T>", None), ("unexpected", "input, expected", "", None),
+    ("exceeds_var_count", "input", "", "exceeds_var_count_stub"),
+]
+
+_US_INJECT = "        #[cfg(kani)]\n        if crate::token::verif_stub::on() {\n            return crate::token::verif_stub::any_err();\n        }\n"
+
+GROUPS["cnf_parser_t2"] = dict(_MODEL, **{
+    "name": "cnf_parser_t2",
+    "package": "flussab-cnf",
+    "prefix": "cnf::verif_cnf::",
+    "overlay": [("flussab-cnf/src/token.rs", "stub", "harness/cnf/token_stub.rs"),
+                ("flussab-cnf/src/cnf.rs", "cnf", "harness/cnf/parser_t2.rs")],
+    "inject": _stub_injects("flussab-cnf/src/token.rs", _CNF_TOKEN_SPECS)
+              + [("flussab-cnf/src/cnf.rs", r"fn unexpected_statement\(&mut self\) -> ParseError \{\n", _US_INJECT)],
+    "params": {"quick": {"N": 2}, "thorough": {"N": 2}},
+    "flags": ["--default-unwind", "6"],
+    "rss_gb": 16,
+    "timeout": {"quick": 1200, "thorough": 3600},
+    "harnesses": [
+        ("next_clause_i8", {"props": ["C06", "C04", "C09", "C05", "C07"], "cost": 6, "what": "cnf next_clause from any parser state: clause-count gating, clean end only via eof with all clauses read, literals as produced, returns right after the line end"}),
+        ("next_clause_isize", {"props": ["C06", "C09"], "cost": 9, "tiers": T, "rss_gb": 24, "what": "cnf next_clause::<isize>"}),
+        ("new_i8", {"props": ["C06", "C05"], "cost": 6, "what": "cnf Parser::new: header values, limits installed iff !ignore_header and non-zero"}),
+        ("new_isize", {"props": ["C06"], "cost": 6, "what": "cnf Parser::new::<isize>"}),
+        ("reach_cnf_parser", {"kind": "reach", "cost": 4, "what": "vacuity twin"}),
     ],
 })
 
